@@ -742,4 +742,47 @@ PROPS["C19"] = {
     "trusted": _APPLY_TRUST,
 }
 
+
+def _c20_property(r):
+    imp = r["impl"]
+    if not isinstance(imp, dict):
+        return None
+    if imp.get("data_race"):
+        return "stress/data-race"
+    if imp.get("class") in ("killed", "panic"):
+        return "stress/" + imp["class"]
+    return None
+
+
+PROPS["C20"] = {
+    "theorem_modules": ["Sidetree.Props.C20"],
+    "prescribes": "Sidetree.Conc (lock exclusion; registries as atomic operations) and the components as functions of their arguments",
+    "obligations": [{"name": "Shape_Conc", "facts": "module:Conc"}, {"name": "Shape_Transformer", "facts": "module:Transformer"}, {"name": "Shape_Composer", "facts": "module:Composer"},
+                    {"name": "Shape_Did", "facts": "module:Did"}] + _PARSER_OBL + _APPLIER_OBL,
+    "streams": [{"gen": "C20", "quick": 6, "thorough": 300}],
+    "race": True,
+    "property_check": _c20_property,
+    "compare": lambda kind, case, impl, model: (lambda a, b: None if a == b else __import__("check").first_diff(a, b))(
+        __import__("check").canon(_drop_keys(impl, {"data_race", "how", "detail"})), __import__("check").canon(model)),
+    "label": lambda r: "stress/g=%d/v=%d" % (r["case"]["goroutines"], r["case"]["versions"]),
+    "nontrivial": lambda r: True,
+    "shape": lambda r: [r["case"]["goroutines"], r["case"]["versions"], len(r["case"]["lines"]), r["case"]["lines"][0][:200]],
+    "rule": "each case: ~160 lines drawn from the parse, apply, compose (validated and hostile), transform, resolve / process, VDR create+read, client lifecycle, patch validation and JWS "
+            "streams are answered once sequentially and then by 8-16 goroutines at once (each in its own order) against one shared parser, applier, composer, transformer, document "
+            "handler and VDR per configuration; every concurrent answer must equal the sequential one. Then 8-16 goroutines add and look up 8 namespaces in one namespace provider, and "
+            "for 30 rounds register the same 3-5 versions in one client registry all at once (exactly one registration of each version may succeed) while looking them up. The harness "
+            "binary is built with -race; every case runs in its own process and a race report is a violation.",
+    "technique": "Lean 4 theorems (readers/writer lock exclusion invariant; properties of every interleaving of atomic registry operations) + go/ast obligations (lock calls around every "
+                 "use of the guarded maps; no assignment through a receiver or to a package-level variable in the shared components) + concurrent-vs-sequential differential under the "
+                 "Go race detector",
+    "level_text": "Proved in Lean: in every reachable state of the readers/writer lock a goroutine inside a write section is the only one inside any section (reachable_exclusive), so a "
+                  "write to a guarded map never overlaps another access; for every order in which atomic registry operations take effect - hence for every interleaving of the "
+                  "goroutines' programs - registering one version succeeds at most once (register_at_most_once), exactly once for the first to take effect (first_registration_wins), "
+                  "and a lookup that takes effect after an add or a successful registration finds a value (lookup_after_put). That every Go method touching the guarded maps is one "
+                  "critical section of the right kind, and that no other shared component assigns through its receiver or to a package-level variable, are facts regenerated from the "
+                  "Go AST on every run.",
+    "level_note": "partial: the Go memory model, sync.RWMutex itself and the scheduler are not modelled; 'no execution contains a data race' is established for the executions the stress "
+                  "run explores under the race detector, not proved. Trusted: Lean kernel; extractor; harness; the race detector.",
+}
+
 NOT_CLAIMED = {}
